@@ -195,6 +195,10 @@ pub const LEAVES: &[Leaf] = &[
     leaf("if nosuchcmd_c18; then :; elif ./noexec.txt; then :; fi"),
     leaf("flocalarr"),
     leaf("frecfail 4"),
+    leaf("compgen -F nosuchfn_c18 x 2>/dev/null"),
+    leaf("fcompbad() { COMPREPLY=($((1/0))); }; compgen -F fcompbad x 2>/dev/null"),
+    leaf("trap 'echo errh18' ERR; false; trap - ERR"),
+    leaf("ftrapret() { trap 'echo reth18' RETURN; }; ftrapret; trap - RETURN"),
 ];
 
 const SETUP: &str = "readonly RO=1\n\
